@@ -32,11 +32,11 @@ def Rec.fresh : Rec := { sec := 0, usec := 0, incl_len := 0, orig_len := 0, payl
 def Rec.setPayload (s : Rec) (p : Bytes) : Rec :=
   { s with payload := p, incl_len := p.length, orig_len := p.length }
 
-/-- `PcapRecord.unpack(buf)`: the 16-byte record header only; `_payload` is not touched -/
+/-- `PcapRecord.unpack(buf)`: the 16-byte record header only; `_payload` is cleared -/
 def Rec.unpack (s : Rec) (buf : Bytes) : Rec × R Unit :=
   if RECORD_HEADER_FORMAT.size ≠ buf.length then (s, .error .value) else
   match structUnpack RECORD_HEADER_FORMAT buf with
-  | .ok [a, b, c, d] => ({ s with sec := a, usec := b, incl_len := c, orig_len := d }, .ok ())
+  | .ok [a, b, c, d] => ({ sec := a, usec := b, incl_len := c, orig_len := d, payload := [] }, .ok ())
   | .ok _ => (s, .error .struct)
   | .error e => (s, .error e)
 
